@@ -36,11 +36,11 @@ Print Assumptions C08_from_float_faithful.
 (** integer arithmetic returns the true result, or falls back to floating point — never wraps *)
 Theorem C08_no_wrap : forall a b v,
   (vadd (VInt a) (VInt b) = Ok v ->
-     (v = VInt (a + b) /\ in_i64 (a + b) = true) \/ (in_i64 (a + b) = false /\ v = from_float (fadd (f_of_Z a) (f_of_Z b)))) /\
+     (v = VInt (a + b) /\ in_i64 (a + b) = true) \/ (in_i64 (a + b) = false /\ v = VFloat (fadd (f_of_Z a) (f_of_Z b)))) /\
   (vsub (VInt a) (VInt b) = Ok v ->
-     (v = VInt (a - b) /\ in_i64 (a - b) = true) \/ (in_i64 (a - b) = false /\ v = from_float (fsub (f_of_Z a) (f_of_Z b)))) /\
+     (v = VInt (a - b) /\ in_i64 (a - b) = true) \/ (in_i64 (a - b) = false /\ v = VFloat (fsub (f_of_Z a) (f_of_Z b)))) /\
   (vmul (VInt a) (VInt b) = Ok v ->
-     (v = VInt (a * b) /\ in_i64 (a * b) = true) \/ (in_i64 (a * b) = false /\ v = from_float (fmul (f_of_Z a) (f_of_Z b)))).
+     (v = VInt (a * b) /\ in_i64 (a * b) = true) \/ (in_i64 (a * b) = false /\ v = VFloat (fmul (f_of_Z a) (f_of_Z b)))).
 Proof.
   intros a b v. repeat split; cbn; intros H; injection H as H; now apply int_or_float_sound.
 Qed.
